@@ -357,6 +357,17 @@ def c09_constants(w, act, st, rec, fresh, recF):
             vals = [float(x) for x in a] + ([] if s.get("include_last") else [float(a[-1])])  # (rockit: last column at tf)
             exprs[p] = ["pwg", vals, [float(x) for x in tc]]
             w.probe("c09_per_interval_parameter_as_piecewise_constant")
+    # a per-interval scalar parameter whose columns all hold the same number is that number, with every method and grid
+    uniform = []
+    for p in spec.names("parameter"):
+        s = spec.sym(p)
+        if s.get("grid", "") != "control" or s.get("rows", 1) * s.get("cols", 1) != 1 or p in exprs or p not in spec.values:
+            continue
+        a = np.array(raw_value(spec.values[p]), dtype=float).flatten()
+        if a.size >= 1 and np.all(a == a[0]):
+            exprs[p] = ["mx", float(a[0])]  # (a constant MX: rockit accepts it inside next / prev / integral / sum)
+            uniform.append(p)
+            w.probe("c09_uniform_per_interval_parameter_as_constant")
     if not consts and not exprs:
         return
     # a guess expression may not mention parameters in this workload, so guesses carry over unchanged
@@ -375,7 +386,10 @@ def c09_constants(w, act, st, rec, fresh, recF):
     pts = well_conditioned(rec, recC)
     # an adaptive built-in integrator (cvodes / idas / collocation with a rootfinder) reproduces itself only within its
     # own tolerance when the same number arrives as a parameter or as a constant
-    rt, at = (1e-5, 1e-7) if (spec.method or {}).get("intg") in ("cvodes", "idas", "collocation") else (1e-8, 1e-10)
+    # (variable-step cvodes / idas: an unstable generated system integrated over a long interval amplifies the difference
+    #  between the two step sequences; 2e-5 was seen on values of ~150 -> judged to 1e-3 there)
+    intg_ = (spec.method or {}).get("intg")
+    rt, at = (1e-3, 1e-5) if intg_ in ("cvodes", "idas") else (1e-5, 1e-7) if intg_ == "collocation" else (1e-8, 1e-10)
     if len(pts) < len(rec["f"]):
         w.probe("c09_ill_conditioned_probe_points_skipped", len(rec["f"]) - len(pts))
     for what, a, b in (("f", [rec["f"][i] for i in pts], [recC["f"][i] for i in pts]), ("lbg", rec["lbg"], recC["lbg"]), ("ubg", rec["ubg"], recC["ubg"]), ("x0", rec["x0"], recC["x0"])):
